@@ -572,6 +572,11 @@ def effective_config(model, text: str, settings: Settings, cfg=None) -> Effectiv
         cfg = model.optimized().new_parse_config(**settings.kwargs())
     tl = TextLines(text, config=cfg)
     ws = tl.whitespace_re.pattern if tl.whitespace_re is not None else None
+    from tatsu.util.undefined import Undefined
+    if cfg.whitespace is Undefined and ws is not None:
+        # nobody defined whitespace: the documented default is the regular expression \\s+ (docs/directives.rst, docs/syntax.rst),
+        # not whatever the code's DEFAULT_WHITESPACE_RE happens to say
+        ws = r'(?m)\s+'
     cap = int(max(1.0, cfg.perlinememos) * linecount(tl.textstr))
     return Effective(
         whitespace=ws, comments=cfg.comments or None, eol_comments=cfg.eol_comments or None,
